@@ -129,6 +129,9 @@ class XMLWriter(object):
 
     def comment(self, data):
         data = escape(data)
+        # "--" is not allowed inside an XML comment
+        while "--" in data:
+            data = data.replace("--", "- -")
         lines = data.split("\n")
         self._writeraw("<!-- " + lines[0])
         for line in lines[1:]:
